@@ -137,6 +137,8 @@ def cmd_coq(c):
         return "CRead %s" % zl(c[1])
     if k == "fail":
         return "CFail"
+    if k == "loopshadow":
+        return "CFail"      # a loop over a variable that has the name of a session definition, aborted by an error: no effect, the error
     if k == "syntax":
         return "CSyntax"
     if k == "defthenfail":
@@ -164,6 +166,8 @@ def cmd_src(c):
         return vname(c[1])
     if k == "fail":
         return "error 'boom'"
+    if k == "loopshadow":
+        return "for %s in [1, 2, 3] do if %s == 2 then error 'boom' end" % (vname(c[1]), vname(c[1]))
     if k == "syntax":
         return "def = ;"
     if k == "defthenfail":
